@@ -3,20 +3,22 @@
    among the successor STATES; the environment has up to eight distinct successors against one protocol step and one
    delivery, so with the plain Next all environment operations would fire in the first few steps.  Here the protocol
    step and the delivery contribute WP / WD distinct successors each (the slot variable w makes them distinct), which
-   spreads the environment operations over the whole protocol. *)
+   spreads the environment operations over the whole protocol; publishes get WU slots per key so that most
+   operations are updates (removals, expiries, Clear and sub refresh one each). *)
 EXTENDS MapSub
 
-CONSTANTS WP, WD
+CONSTANTS WP, WD, WU
 VARIABLE w
 simvars == <<vars, w>>
 
 Proto == StateCmd \/ StateLast \/ StateDecide \/ StreamCmd \/ StreamDecide \/ JoinCmd \/ TransRead \/ TransFinish \/ Snapshot \/ Resub
-Env   == \/ \E k \in Keys : Publish(k) \/ RemoveKey(k) \/ KeyExpiry(k)
+Env   == \/ \E k \in Keys : RemoveKey(k) \/ KeyExpiry(k)
          \/ StreamExpiry \/ Clear
          \/ \E c \in BOOLEAN : SubRefresh(c)
 
 SimNext == \/ \E s \in 1..WP : Proto /\ w' = s
            \/ \E s \in 1..WD : Deliver /\ w' = s
+           \/ \E s \in 1..WU, k \in Keys : Publish(k) /\ w' = s
            \/ Env /\ w' = 0
 
 SimSpec == Init /\ w = 0 /\ [][SimNext]_simvars
